@@ -92,7 +92,12 @@ def build(formula, df, **ns):
 
 
 def newframes(df):
-    return [(idx, df.iloc[idx].reset_index(drop=True)) for idx in c06.new_frames(_TIER)]
+    out = []
+    for idx in c06.new_frames(_TIER):
+        out.append((idx, df.iloc[idx].reset_index(drop=True)))
+        if len(idx) <= 2:
+            out.append((idx, df.iloc[idx]))  # labels kept
+    return out
 
 
 def check_case(case, acc):
